@@ -68,10 +68,10 @@ def verus_unit(plan):
     items.append(verus_fn(sig, body, ensures=["r == self.symbols@.contains_key(key)"]))
     fns["contains"] = "C05.SymbolTable.contains"
     sig, body = extract_fn(st, "insert")
-    n = len(re.findall(r"self\.reverse_lookup\.insert\(&cell,\s*key\);", body))
+    n = len(re.findall(r"self\.reverse_lookup\.insert\(&\w+,\s*key\);", body))
     if n != 1:
         raise AnchorLost("SymbolTable::insert: reverse_lookup statement not found exactly once")
-    body = re.sub(r"self\.reverse_lookup\.insert\(&cell,\s*key\);", "/* dropped: reverse_lookup.insert(&cell, key) */", body)
+    body = re.sub(r"self\.reverse_lookup\.insert\(&\w+,\s*key\);", "/* dropped: reverse_lookup.insert(&cell, key) */", body)
     req = ["old(self).wf()", "!old(self).symbols@.contains_key(key)"]
     ens = ["final(self).wf()",
            "final(self).symbols@ == old(self).symbols@.insert(key, r)",
